@@ -398,6 +398,14 @@ func (cs *clientStream) doHttpCall(transport http.RoundTripper, req *http.Reques
 		if rErr != nil && cs.rErr == nil {
 			cs.rErr = rErr
 		}
+		if cs.rErr != nil {
+			if ctxErr := cs.ctx.Err(); ctxErr != nil {
+				if _, ok := status.FromError(cs.rErr); !ok {
+					// reading the reply failed because the context ended
+					cs.rErr = statusFromContextError(ctxErr)
+				}
+			}
+		}
 		cs.done = true
 		readPipe.CloseWithError(rErr)
 		close(cs.rCh)
